@@ -306,6 +306,8 @@ class Agg:
 SLICES: dict[str, dict[str, Any]] = {
     "opt": {"residue": 9, "flags": ["-O"], "env": {},
             "what": "python -O (asserts compiled away)"},
+    "oo": {"residue": 2, "flags": ["-OO"], "env": {},
+           "what": "python -OO (asserts and docstrings compiled away)"},
     "clocale": {"residue": 4, "flags": [],
                 "env": {"LC_ALL": "C", "LANG": "C", "PYTHONUTF8": "0", "PYTHONCOERCECLOCALE": "0",
                         "PYTHONIOENCODING": "utf-8"},
@@ -494,7 +496,7 @@ def write_replay(mod: Any, seed: int, vio: dict[str, Any], minimal: dict[str, An
             "plan": minimal,
             "original_plan": vio["plan"],
             "original_digest": vio.get("digest"),
-            "interpreter_optimize": int(bool(sys.flags.optimize)),
+            "interpreter_optimize": int(sys.flags.optimize),
             "interpreter_slice": os.environ.get("VERIF_SLICE_NAME") or "normal",
         }, f, indent=1, sort_keys=True)
     return path
@@ -604,7 +606,7 @@ def main(argv: list[str]) -> int:
         try:
             with open(a.replay, encoding="utf-8") as f:
                 rpj = json.load(f)
-            replay_opt = bool(rpj.get("interpreter_optimize", 0))
+            replay_opt = int(rpj.get("interpreter_optimize", 0))
             sl = SLICES.get(rpj.get("interpreter_slice") or "")
             if sl and os.environ.get("VERIF_SLICE_NAME") != rpj.get("interpreter_slice"):
                 # the replay runs in the interpreter configuration the run was made in
